@@ -469,6 +469,11 @@ func runFaults(r, tr *vrep.Report, sh Shape, primary string, plan []*injected) {
 				return uni.Action{Kind: uni.DropReq}
 			}
 			if in.sticky != nil && in.fired.Load() && c.Cmd == in.pt.Cmd {
+				if sh.Async || sh.OnePC {
+					// Commit of an async-commit / 1PC transaction returns before its commit requests are sent: the
+					// region stays unavailable for the background work as well (recovery by others decides then)
+					return uni.Action{Kind: uni.RegionErr, RegErr: in.sticky}
+				}
 				select {
 				case <-commitReturned:
 				default:
